@@ -84,7 +84,7 @@ def _jac(ctx, p, rng):
     polys = [PP.random_poly(rng, N, 4, 4) for _ in range(M)]
     x = _point(rng, N, p['point']); xq = [Fraction(float(v)) for v in x]
     v = np.round(rng.normal(size=N) * 1.5, 3); vq = [Fraction(float(t)) for t in v]          # directions are never integer-valued
-    style = int(rng.integers(12))
+    style = int(rng.integers(24))
     # --- init_jacobian / extract_jacobian
     try:
         X = UTPM.init_jacobian(_typed(rng, x, p['point']))
@@ -106,6 +106,31 @@ def _jac(ctx, p, rng):
             if not ok:
                 ctx.violation('jacobian:value', {'N': N, 'M': M, 'm': m, 'i': i, 'got': float(J2[m, i]), 'want': float(dp(xq)), 'x': x.tolist()}); return
     ctx.ok('jacobian', ('jac', N, M, p['point'], style), noise=worst)
+    # the same seed inside a longer polynomial (a user who also wants y.data[2] from the same sweep): the first-order
+    # coefficient is still what the extractors return
+    Dl = 3 + int(rng.integers(3))
+    try:
+        d = np.zeros((Dl, N, N)); d[:2] = X.data
+        Jl = np.asarray(UTPM.extract_jacobian(PP.evaluate(algopy, polys, UTPM(d), style)))
+        d = np.zeros((Dl, 1, N)); d[0, 0] = x; d[1, 0] = v
+        Jvl = np.asarray(UTPM.extract_jac_vec(PP.evaluate(algopy, polys, UTPM(d), -1 - style)))
+    except Exception as e:
+        ctx.violation('jacobian:longer-polynomial:raises:' + type(e).__name__, {'N': N, 'M': M, 'D': Dl, 'error': repr(e)[:200]}); return
+    if Jl.shape != J.shape or Jvl.shape != (M,):
+        ctx.violation('jacobian:longer-polynomial:shape', {'got': [Jl.shape, Jvl.shape], 'want': [J.shape, (M,)], 'D': Dl}); return
+    for m in range(M):
+        ref = sum(polys[m].diff(i)(xq) * vq[i] for i in range(N))
+        sc = sum(polys[m].diff(i).absval(xq) * abs(vq[i]) for i in range(N))
+        ok, e = _close(Jvl[m], ref, sc)
+        if not ok:
+            ctx.violation('jac_vec:longer-polynomial:value', {'N': N, 'M': M, 'D': Dl, 'm': m, 'got': float(Jvl[m]), 'want': float(ref)}); return
+        for i in range(N):
+            dp = polys[m].diff(i)
+            ok, e = _close(Jl.reshape(M, N)[m, i], dp(xq), dp.absval(xq))
+            if not ok:
+                ctx.violation('jacobian:longer-polynomial:value', {'N': N, 'M': M, 'D': Dl, 'm': m, 'i': i, 'got': float(Jl.reshape(M, N)[m, i]),
+                                                                   'want': float(dp(xq)), 'x': x.tolist()}); return
+    ctx.ok('jacobian', ('jac-longer', N, M, Dl, style))
     # --- init_jac_vec / extract_jac_vec
     try:
         X = UTPM.init_jac_vec(_typed(rng, x, p['point']), v.copy())
@@ -160,7 +185,7 @@ def _hess(ctx, p, rng):
     poly = PP.random_poly(rng, N, 5, 5)
     x = _point(rng, N, p['point']); xq = [Fraction(float(v)) for v in x]
     v = np.round(rng.normal(size=N) * 1.5, 3); vq = [Fraction(float(t)) for t in v]
-    style = int(rng.integers(12))
+    style = int(rng.integers(24))
     try:
         xh = _typed(rng, x, p['point'])
         if isinstance(xh, list):
@@ -223,7 +248,7 @@ def _tensor(ctx, p, rng):
         e = [0] * N; e[0] = (d + 1) // 2; e[1] = d // 2
         poly.t[tuple(e)] = poly.t.get(tuple(e), 0) + Fraction(3)
     x = _point(rng, N, p['point']); xq = [Fraction(float(v)) for v in x]
-    style = int(rng.integers(12))
+    style = int(rng.integers(24))
     J = [tuple(int(v) for v in row) for row in np.asarray(EI.generate_multi_indices(N, d))]
     try:
         xt = x.copy()
